@@ -224,6 +224,12 @@ func panicSite(p *vx.PanicInfo) string {
 // the printed part of the overflowing stack (which function happens to be
 // innermost when the limit is hit is arbitrary, the cycle is not).
 func recursionSite(stack string) string {
+	// only the innermost frames (the runtime prints the top 50 and the bottom
+	// 50 frames): the outermost ones are the finite path that led to the
+	// recursion, however often a function occurs on it
+	if i := strings.Index(stack, "frames elided"); i > 0 {
+		stack = stack[:i]
+	}
 	fr := cogFrames(stack, false)
 	count := map[string]int{}
 	for _, f := range fr {
